@@ -17,14 +17,18 @@ POTABLE = "atsim.potentials.tools.potable"
 EXPLANATION = (
     "The filter is a finite decision: membership of one or two species labels in the given set, and the include/exclude "
     "flag. FilteredConfigParser is evaluated by the abstract evaluator on a wrapped parser model whose four species-keyed "
-    "views hold entries over the labels {A, B, C} (one- and two-species keys, every membership pattern), for every "
+    "views hold entries over the labels {C, Cu, uC} (each a prefix or suffix of another, so a test that looks inside labels is told from membership; one- and two-species keys, every membership pattern), for every "
     "include and exclude set over {A, B, C, unknown} including the empty set; results are compared with 'delete every entry "
     "that mentions a species outside S / inside S', order preserved. wrapt.ObjectProxy's attribute forwarding is modelled "
     "(names without the _self_ prefix are stored on the wrapped parser), so interference between several views of one "
     "parser shows as a wrong list in a multi-view history. Exhaustiveness of the overridden views and the CLI's presence "
     "tests are decided on the syntax tree / by abstract evaluation.")
 
-LABELS = ("A", "B", "C")
+# labels related as prefix / suffix of one another (a filter that looks inside a label - startswith, a pattern match without end
+# anchor, a substring test - is not the membership test the property states), plus an unknown label that is a prefix of one
+# label and a suffix of another
+LABELS = ("C", "Cu", "uC")
+UNKNOWN = "u"
 
 
 class ParserModel(object):
@@ -66,7 +70,7 @@ def keep(key, species, exclude):
 
 
 def subsets():
-    pool = tuple(LABELS) + ("Zz",)
+    pool = tuple(LABELS) + (UNKNOWN,)
     out = []
     for n in range(len(pool) + 1):
         for c in itertools.combinations(pool, n):
@@ -76,7 +80,7 @@ def subsets():
 
 def run(chk):
     global LABELS
-    LABELS = ("A", "B", "C", "D") if chk.tier == "thorough" else ("A", "B", "C")
+    LABELS = ("C", "Cu", "uC", "CuC") if chk.tier == "thorough" else ("C", "Cu", "uC")
     P = F.load_program()
     chk.explanation = EXPLANATION
     chk.info.update(P.stats())
@@ -207,7 +211,7 @@ def isolation(chk, P):
     model = ParserModel(I, P)
     wrapped = PyObjV(model)
     site = cls.site_of("__init__")
-    specs = [("include", ["A", "B"]), ("include", ["C"]), ("exclude", ["A"])]
+    specs = [("include", [LABELS[0], LABELS[1]]), ("include", [LABELS[2]]), ("exclude", [LABELS[0]])]
     views = []
     history = []
 
@@ -241,7 +245,7 @@ def builder_isolation(chk, P):
     its own view's entries.  Both EAM builders, pair builder; the second build is compared with the same build made alone."""
     from .. import eamrules as E
     fcls = P.cls(FCP, "FilteredConfigParser")
-    specs = [("exclude", ["A"]), ("include", ["A", "B"]), ("exclude", ["C"])]
+    specs = [("exclude", [LABELS[0]]), ("include", [LABELS[0], LABELS[1]]), ("exclude", [LABELS[2]])]
 
     def species_of(I, builder_cls_name, view):
         st = I.__dict__.setdefault("class_standins", {})
